@@ -341,7 +341,7 @@ pub assume_specification<'a, T>[ <syn::punctuated::Iter<'a, T> as core::iter::It
 // ------------------------------------------------------------------ transparent syn syntax nodes
 // Declared without external_body, so the real functions can match on / project out of them.
 ext_opaque!{
-    ExTypeArray => syn::TypeArray, ExTypeBareFn => syn::TypeBareFn, ExTypeGroup => syn::TypeGroup,
+    ExTypeArray => syn::TypeArray, ExTypeBareFn => syn::TypeBareFn,
     ExTypeInfer => syn::TypeInfer, ExTypeMacro => syn::TypeMacro, ExTypeNever => syn::TypeNever,
     ExTypePtr => syn::TypePtr, ExTypeSlice => syn::TypeSlice, ExTypeTraitObject => syn::TypeTraitObject,
     ExTypeTuple => syn::TypeTuple, ExQSelf => syn::QSelf, ExPathArguments => syn::PathArguments,
@@ -368,6 +368,8 @@ verus! {
 #[verifier::external_type_specification] pub struct ExType(syn::Type);
 #[verifier::external_type_specification] pub struct ExTypeReference(syn::TypeReference);
 #[verifier::external_type_specification] pub struct ExTypeParen(syn::TypeParen);
+#[verifier::external_type_specification] #[verifier::external_body] pub struct ExTokGroup(syn::token::Group);
+#[verifier::external_type_specification] pub struct ExTypeGroup(syn::TypeGroup);
 #[verifier::external_type_specification] pub struct ExTypeImplTrait(syn::TypeImplTrait);
 #[verifier::external_type_specification] pub struct ExTypePath(syn::TypePath);
 #[verifier::external_type_specification] pub struct ExPath(syn::Path);
